@@ -1,6 +1,7 @@
 package vc
 
 import (
+	"fmt"
 	"go/types"
 	"sort"
 	"strings"
@@ -93,6 +94,9 @@ func (f *Frame) bridgeGetters(t types.Type, val, boxed string, reach string, st 
 			}
 			uf := f.pureMethodResults(m, sig, boxed, nil)[0]
 			f.ctx.Fact(Implies(reach, Eq(uf, res)))
+			if isByteSlice(sig.Results().At(0).Type()) {
+				f.ctx.Fact(Implies(reach, fmt.Sprintf("(= %s (content %s %s))", f.getterBytes(m, boxed), f.heap(st, "H_uint8"), res)))
+			}
 		}
 	}
 }
